@@ -116,6 +116,14 @@ Section Pack.
 
   (* Body of the to_dict generated for class cg, running on an instance (i, pre hook returns j)
      whose runtime class is cr.  kk: what the hooks receive; pc/ck: what is forwarded. *)
+  (* to_dict of G ends in `return self.__post_serialize__(<dict>)`.  When the class has no Optional field
+     <dict> is a literal whose items are evaluated *after* the attribute lookup self.__post_serialize__; a
+     plain (non-mixin) instance R without the hook fails there, before any field is packed.  With an
+     Optional field the incremental `kwargs[...] = ...` statements run first. *)
+  Definition is_opt (t: ty) : bool := match t with TOpt _ => true | _ => false end.
+  Definition early_fail (G R: cinfo) : bool :=
+    c_post G && negb (c_post R) && negb stubs && negb (existsb (fun f => is_opt (f_ty f)) (c_fields G)).
+
   Definition body (cg cr i j: nat) (subs: list (nat * sub)) (kk ck: ctxtok) : M :=
     let G := cls E cg in
     let R := cls E cr in
@@ -129,7 +137,7 @@ Section Pack.
        otherwise returns None silently *)
     let post_part : M := if c_post G then (if c_post R then ok_ [Post cr (if c_pre G then j else i) kk]
                                            else (stubs && negb (c_ctx G), [])) else ok_ [] in
-    seq2 pre_part (seq2 fields_part post_part).
+    if early_fail G R then seq2 pre_part fail_ else seq2 pre_part (seq2 fields_part post_part).
 
   (* value.__mashumaro_to_dict__([context=context]) *)
   Definition call_mixin (pass: bool) (k: ctxtok) (cr i j: nat) (subs: list (nat * sub)) : M :=
